@@ -210,6 +210,9 @@ pub struct PubCase {
     pub correlate: Option<usize>,
     /// broker Maximum Packet Size (None = absent)
     pub max_packet: Option<u32>,
+    /// call correlate() before properties() instead of after
+    #[serde(default)]
+    pub correlate_first: bool,
 }
 
 fn pub_prop_sets() -> Vec<Vec<Prop>> {
@@ -261,12 +264,20 @@ pub fn eval_pub(c: &PubCase) -> CaseOut {
             let Conn::Ok(mut conn, id) = connect(bench, s, &ca) else { return None };
             let before = bench.written(id).len();
             let props = props_of(&props_ref);
-            let mut publication = Publication::bytes(&topic, &payload).qos(qos_of(c.qos)).properties(&props);
+            let mut publication = Publication::bytes(&topic, &payload).qos(qos_of(c.qos));
+            if c.correlate_first {
+                if let Some(cd) = &corr {
+                    publication = publication.correlate(cd);
+                }
+                publication = publication.properties(&props);
+            } else {
+                publication = publication.properties(&props);
+                if let Some(cd) = &corr {
+                    publication = publication.correlate(cd);
+                }
+            }
             if c.retain {
                 publication = publication.retain();
-            }
-            if let Some(cd) = &corr {
-                publication = publication.correlate(cd);
             }
             let r = match bench.run(conn.publish(publication), id) {
                 Some(Ok(h)) => Ok(h.is_some()),
@@ -356,13 +367,16 @@ pub fn eval_pub(c: &PubCase) -> CaseOut {
 fn pub_cases(tier: Tier) -> Vec<PubCase> {
     let mut v = Vec::new();
     let nsets = pub_prop_sets().len();
-    let base = PubCase { tx: 512, topic_len: 1, payload_len: 2, qos: 0, retain: false, props: 0, correlate: None, max_packet: None };
+    let base = PubCase { tx: 512, topic_len: 1, payload_len: 2, qos: 0, retain: false, props: 0, correlate: None, max_packet: None, correlate_first: false };
     // flags x property sets x correlate
     for qos in 0..3u8 {
         for retain in [false, true] {
             for props in 0..nsets {
                 for correlate in [None, Some(0usize), Some(5)] {
                     v.push(PubCase { qos, retain, props, correlate, tx: 1024, ..base.clone() });
+                    if correlate.is_some() {
+                        v.push(PubCase { qos, retain, props, correlate, tx: 1024, correlate_first: true, ..base.clone() });
+                    }
                 }
             }
         }
